@@ -101,7 +101,8 @@ class Engine:
             def wb(st2, new, key=key, obj_ref=obj_ref):
                 st2.heap[key + "#dom"] = z3.Store(self.field_array(st2, key + "#dom"), obj_ref, new.x[0])
                 st2.heap[key + "#map"] = z3.Store(self.field_array(st2, key + "#map"), obj_ref, new.t)
-            return SV("dict", mp, x=(dom, vk), wb=wb, cls=fcls)
+            return SV("dict", mp, x=(dom, vk), wb=wb, cls=fcls,
+                      orig=lambda st2, obj_ref=obj_ref, cls=cls, attr=attr: self.read_field(st2, obj_ref, cls, attr))
         raise Unsupported("field kind " + kind)
 
     def write_field(self, st, obj_ref, cls, attr, value):
@@ -242,6 +243,8 @@ class Engine:
             return z3.BoolVal(True)
         if k == "set":
             return sv.t != EmptySet
+        if k == "optset":           # Optional[set] (dict.get on a dict of sets): x = present
+            return z3.And(sv.x, sv.t != EmptySet)
         if k in ("list", "bytes"):
             return sv.x > 0
         if k == "seq":
@@ -493,9 +496,13 @@ class Engine:
         if isinstance(tgt, ast.Name):
             if val.k in ("set", "list", "dict", "bytes", "seq"):
                 name = tgt.id
-                val = SV(val.k, val.t, cls=val.cls, x=val.x,
-                         wb=lambda st2, new, name=name: st2.env.__setitem__(
-                             name, SV(new.k, new.t, cls=new.cls, x=new.x, wb=st2.env[name].wb)))
+                origin_wb = val.wb      # a local bound to a container that lives in the heap / in a dict aliases it
+
+                def wb(st2, new, name=name, origin_wb=origin_wb):
+                    if origin_wb is not None:
+                        origin_wb(st2, new)
+                    st2.env[name] = SV(new.k, new.t, cls=new.cls, x=new.x, wb=st2.env[name].wb, orig=st2.env[name].orig)
+                val = SV(val.k, val.t, cls=val.cls, x=val.x, wb=wb, orig=val.orig)
             st.env[tgt.id] = val
             return
         if isinstance(tgt, ast.Attribute):
@@ -680,6 +687,10 @@ class Engine:
             return it.x
         if k == "set":
             x = fresh("x", Val)
+            return [Bag([x], z3.Select(it.t, x), self.schema.refine(SV("val", x, cls=it.cls)))]
+        if k == "optset":
+            x = fresh("x", Val)
+            st.oblige("safety.iterated_optional_is_not_none", it.x)
             return [Bag([x], z3.Select(it.t, x), self.schema.refine(SV("val", x, cls=it.cls)))]
         if k == "tuple":
             return [Bag([], z3.BoolVal(True), e) for e in it.x]
@@ -1246,9 +1257,6 @@ class Engine:
                 new = SV("dict", newmap, x=(z3.Store(dom, key, True), vk), cls=cont.cls)
                 cont.wb(st, new)
                 cur = z3.Select(newmap, key)
-
-                def wb(st2, newset, cont_wb=cont.wb, key=key, vk=vk, cls=cont.cls, getd=cont.x2 if hasattr(cont, "x2") else None):
-                    raise Unsupported("nested writeback")
                 return SV("set", cur, wb=self._nested_set_wb(cont, key))
             s2 = st.fork()
             s2.assume(z3.Not(z3.Select(dom, key)))
@@ -1275,27 +1283,15 @@ class Engine:
         raise Unsupported("subscript on %s (cls=%s)" % (k, cont.cls))
 
     def _nested_set_wb(self, cont, key):
-        def wb(st2, newset):
-            # re-read the dict in st2 through the container's own path
-            cur = cont.reread(st2) if hasattr(cont, "reread") else None
-            raise Unsupported("nested set write-back")
-        # we implement nested writes by re-evaluating through cont.wb with the latest dict value
-        def wb2(st2, newset, cont=cont, key=key):
-            d = self._reread(cont, st2)
+        """write-back for a set stored inside a dict (d[k].add(x)): re-read the dict in the current state
+        and store the new set under the key"""
+        def wb(st2, newset, cont=cont, key=key):
+            d = cont.orig(st2) if cont.orig is not None else cont
             new = SV("dict", z3.Store(d.t, key, newset.t), x=d.x, cls=d.cls)
+            if cont.wb is None:
+                raise Unsupported("nested set write-back without origin")
             cont.wb(st2, new)
-        return wb2
-
-    def _reread(self, cont, st):
-        """Current value of a container that was obtained earlier (needed because SVs are values)."""
-        if getattr(cont, "wb", None) is not None and hasattr(cont.wb, "reread"):
-            return cont.wb.reread(st)
-        # Fallback: containers read from heap fields register 'origin' on the SV
-        if cont.k == "dict" and isinstance(cont.cls, str) and hasattr(cont, "x") and len(cont.x) == 2:
-            origin = getattr(cont.wb, "origin", None)
-            if origin is not None:
-                return origin(st)
-        raise Unsupported("cannot re-read container")
+        return wb
 
     def slice_(self, cont, sl, st):
         if sl.step is not None:
